@@ -13,6 +13,9 @@ TInit == AInit /\ i = 1 /\ RejectInit /\ TLCSet(2, 0)
 L1(px, py, a, b) == Abs(px[a] - px[b]) + Abs(py[a] - py[b])
 \* listed channels (0-based) of a waveform whose peak channel is p (0-based): distinct, peak first,
 \* all on the peak's probe, a valid set of the nearest ones under L1 distance
+\* (which of several equally large channels is "the" peak channel is not fixed by the statement: p is the
+\* first listed channel and must be A channel of maximal peak-to-peak amplitude of the waveform Wx)
+IsPeak(Wx, p) == p + 1 \in 1..Len(PTP(Wx)) /\ PTP(Wx)[p + 1] = SeqMax(PTP(Wx))
 ChannelsOk(ch, p, r) ==
    LET same == {c \in 1..r.nch : r.chprobe[c] = r.chprobe[p + 1]}
        S == {ch[k] + 1 : k \in 1..Len(ch)} IN
@@ -38,17 +41,21 @@ Check1(r) ==
   /\ Clause(r.id, "C14.spike_amps", r.spike8 = SpikeAmps8(r.Wt, r.wmi4, r.st, r.amps, r.f2))
   /\ Clause(r.id, "C14.template_amps", MeansOk(r.tamps, r.Wt, r.st, r, r.ntm))
   /\ Clause(r.id, "C14.cluster_amps", MeansOk(r.camps, r.Wc, r.sc, r, r.ncl))
-  /\ Clause(r.id, "C14.template_channels", \A t \in 1..r.ntm : ChannelsOk(r.tch[t], PeakChannels(r.Wt)[t], r))
-  /\ Clause(r.id, "C14.cluster_channels", \A x \in 1..r.ncl : ChannelsOk(r.cch[x], PeakChannels(r.Wc)[x], r))
+  /\ Clause(r.id, "C14.template_channels", \A t \in 1..r.ntm :
+               Len(r.tch[t]) >= 1 /\ IsPeak(r.Wt[t], r.tch[t][1]) /\ ChannelsOk(r.tch[t], r.tch[t][1], r))
+  /\ Clause(r.id, "C14.cluster_channels", \A x \in 1..r.ncl :
+               Len(r.cch[x]) >= 1 /\ IsPeak(r.Wc[x], r.cch[x][1]) /\ ChannelsOk(r.cch[x], r.cch[x][1], r))
   /\ Clause(r.id, "C14.template_waveforms", WaveformsOk(r.twq, r.tch, r.Wt, r.st, r, r.ntm))
   /\ Clause(r.id, "C14.cluster_waveforms", WaveformsOk(r.cwq, r.cch, r.Wc, r.sc, r, r.ncl))
-  /\ Clause(r.id, "C14.cluster_peak_channels", r.cchan = PeakChannels(r.Wc))
+  /\ Clause(r.id, "C14.cluster_peak_channels", Len(r.cchan) = r.ncl /\ \A x \in 1..r.ncl : IsPeak(r.Wc[x], r.cchan[x]))
   /\ Clause(r.id, "C14.durations", \A x \in 1..r.ncl : IF r.curated /\ Empty(r, x) THEN r.cdur[x] = <<1, 0>>
-                                                       ELSE r.cdur[x] = <<0, Durations(r.Wc)[x]>>)
+                                                       ELSE \E p \in 0..(r.nch - 1) : IsPeak(r.Wc[x], p) /\
+                                                            r.cdur[x] = <<0, FirstArgMax(Col(r.Wc[x], p + 1)) - FirstArgMin(Col(r.Wc[x], p + 1))>>)
   /\ Clause(r.id, "C14.cluster_depths", \A x \in 1..r.ncl :
-               IF Empty(r, x) THEN r.cdepthq[x] = -1 ELSE r.cdepthq[x] = Q * r.posy[PeakChannels(r.Wc)[x] + 1])
+               IF Empty(r, x) THEN r.cdepthq[x] = -1
+               ELSE \E p \in 0..(r.nch - 1) : IsPeak(r.Wc[x], p) /\ r.cdepthq[x] = Q * r.posy[p + 1])
   /\ Clause(r.id, "C14.spike_depths", \A k \in 1..r.nspk :
-               IF r.x = <<>> THEN r.sdepthq[k] = Q * r.posy[PeakChannels(r.Wc)[r.sc[k] + 1] + 1]
+               IF r.x = <<>> THEN \E p \in 0..(r.nch - 1) : IsPeak(r.Wc[r.sc[k] + 1], p) /\ r.sdepthq[k] = Q * r.posy[p + 1]
                ELSE \A dd \in {Depth(r.x[k], r.ys[k])} :
                     IF dd[2] = 0 THEN r.sdepthq[k] = -1 ELSE r.sdepthq[k] >= 0 /\ NearQ(r.sdepthq[k], dd[1], dd[2], Q))
   /\ Clause(r.id, "C14.rawInd", r.rawInd = r.chmapOrig)
